@@ -227,7 +227,7 @@ impl Property for P {
                 prior,
             });
         let scaled = (
-            gen::scaled_text_and_width(text_mix, 1200),
+            gen::scaled_text_and_width(text_mix, 4000),
             gen::optspec(og.clone()),
             any::<bool>(),
         )
